@@ -204,18 +204,22 @@ func validRecords(spool []byte) bool {
 func validEPSSCSV(plain []byte) bool {
 	rd := csv.NewReader(bytes.NewReader(plain))
 	rd.FieldsPerRecord = -1
-	recs, err := rd.ReadAll()
-	if err != nil || len(recs) < 2 {
+	meta, err := rd.Read()
+	if err != nil || len(meta) != 2 || !strings.HasPrefix(meta[0], "#model_version:") || !strings.HasPrefix(meta[1], "score_date:") ||
+		len(meta[0]) == len("#model_version:") || len(meta[1]) == len("score_date:") {
 		return false
 	}
-	if len(recs[0]) != 2 || !strings.HasPrefix(recs[0][0], "#model_version:") || !strings.HasPrefix(recs[0][1], "score_date:") {
+	rd.Comment = '#'
+	hdr, err := rd.Read()
+	if err != nil || len(hdr) != 3 || hdr[0] != "cve" || hdr[1] != "epss" || hdr[2] != "percentile" {
 		return false
 	}
-	if len(recs[1]) != 3 || recs[1][0] != "cve" || recs[1][1] != "epss" || recs[1][2] != "percentile" {
-		return false
-	}
-	for _, r := range recs[2:] {
-		if len(r) != 3 {
+	for {
+		r, err := rd.Read()
+		if err == io.EOF {
+			return true
+		}
+		if err != nil || len(r) != 3 {
 			return false
 		}
 		for _, f := range r[1:] {
@@ -224,7 +228,6 @@ func validEPSSCSV(plain []byte) bool {
 			}
 		}
 	}
-	return true
 }
 
 // validNVD: the decompressed NVD year file is one well-formed JSON document of the expected shape.
